@@ -874,3 +874,24 @@ def hostile_comment_per_slot(rng, toks, per_slot=None, template=None, only=None,
                         continue
                     out.append((name, kind, "%s:%s%s" % (fam, cls, "@prev" if where == "prev" else ""), text, d.twin))
     return out
+
+
+def comment_at_every_slot(rng, template, toks):
+    """-> [(slot name, kind, variant, text, twin)]: `template` with ONE comment at ONE placeholder, every placeholder in
+    turn; variants: block style, line style, and for leading placeholders both again on the line of the previous
+    token.  Used with the shape programs of gen/fmt_shapes.py (every chain / list shape x every placeholder)."""
+    sig = [(t["ty"], t["lit"]) for t in toks if t["k"] == "T"]
+    slots = find_slots(sig)
+    out = []
+    for i, (kind, idx, name) in enumerate(slots):
+        variants = [("block", "/*", None), ("line", rng.choice(["//", "#"]), None)]
+        if kind == "leading":
+            variants += [("block@prev", "/*", "prev"), ("line@prev", rng.choice(["//", "#"]), "prev")]
+        for vname, st, where in variants:
+            d = Decorator(rng)
+            text, placed = d.decorate(template, toks, density=1.1, styles=[st], specials=False, max_per_slot=1,
+                                      only_index=i, line_inline=True, pattern=[("prev", st)] if where else None)
+            if text is None or not placed:
+                continue
+            out.append((name, kind, vname, text, d.twin))
+    return out
